@@ -154,7 +154,7 @@ def dce_tie(ctx, progs, res):
 OPAQUE = re.compile(r'\(EOther "(range|slice|struct|cast)"\)')
 
 
-def unused_tie(ctx, progs, res, key="pass:unused", fid="unused_fid", label="unused_model_tie"):
+def unused_tie(ctx, progs, res, key="pass:unused", fid="unused_fid", label="unused_model_tie", mod="UnusedObs", what="unused-variable", skip_other=False):
     """Fidelity of Model/Opt/Unused.v: the model pass, evaluated inside Coq on the typed AST the real
     front end produced, must give exactly the AST the real UnusedVarEliminator produces from it.
     Skipped (counted): programs with a `pub let` (not represented in Model/Lang.v) and programs
@@ -166,33 +166,33 @@ def unused_tie(ctx, progs, res, key="pass:unused", fid="unused_fid", label="unus
         if "in" not in a or not out:
             continue
         if out.startswith("PANIC"):
-            ctx.violation("c01:unused-panic", "the unused-variable elimination pass panics", {"program": progs[i], "panic": out})
+            ctx.violation(f"c01:{what}-panic", f"the {what} pass panics", {"program": progs[i], "panic": out})
             continue
         if re.search(r"\bpub\s+let\b", progs[i]):
             skipped["pub-let"] += 1
             continue
-        if OPAQUE.search(a["in"]):
+        if OPAQUE.search(a["in"]) or (skip_other and "(EOther " in a["in"]):
             skipped["opaque-subexpression"] += 1
             continue
         cases.append(f"{a['in']} {out}")
         idx.append(i)
-    codes, err = vlib.coq_eval_codes("c01" + fid[:9].replace("_", ""), "From Aelys Require Import Model.Lang Model.Opt.UnusedObs.", fid, cases, shard=80)
+    codes, err = vlib.coq_eval_codes("c01" + fid.replace("_", ""), f"From Aelys Require Import Model.Lang Model.Opt.{mod}.", fid, cases, shard=80)
     if err:
-        ctx.broken.append("correspondence C01: unused-variable model evaluation failed")
+        ctx.broken.append(f"correspondence C01: {what} model evaluation failed ({fid})")
         ctx.log(err[-2000:])
     cc = collections.Counter(c for c in codes if c is not None)
     differs = [idx[k] for k, c in enumerate(codes) if c == 1]
     if differs:
-        ctx.broken.append(f"correspondence C01: Model/Opt/Unused.v ({fid}) differs from the real unused-variable pass on {len(differs)} of {len(cases)} programs")
+        ctx.broken.append(f"correspondence C01: Model/Opt/{mod[:-3]}.v ({fid}) differs from the real {what} pass on {len(differs)} of {len(cases)} programs")
         ctx.cov[label + "_differs_example"] = {"program": progs[differs[0]][:3000],
                                                    "real_pass_output": res[differs[0]]["ast"][key][:3000]}
     if cases and cc.get(0, 0) < max(5, len(cases) // 50):
-        ctx.broken.append(f"correspondence C01: the unused-variable tie ({fid}) is starved (the pass deletes something in only {cc.get(0, 0)} of {len(cases)} programs)")
-    ctx.cov[label] = {"programs": len(cases), "model_equals_real_pass_and_deletes": cc.get(0, 0),
-                                   "model_equals_real_pass_nothing_deleted": cc.get(2, 0), "model_differs_from_real_pass": cc.get(1, 0),
+        ctx.broken.append(f"correspondence C01: the {what} tie ({fid}) is starved (the pass changes something in only {cc.get(0, 0)} of {len(cases)} programs)")
+    ctx.cov[label] = {"programs": len(cases), "model_equals_real_pass_and_changes_something": cc.get(0, 0),
+                                   "model_equals_real_pass_nothing_changed": cc.get(2, 0), "model_differs_from_real_pass": cc.get(1, 0),
                                    "skipped": dict(skipped)}
     ctx.cov["evaluations"] = ctx.cov.get("evaluations", 0) + len(cases)
-    ctx.log(f"unused-variable model tie ({fid}): {dict(cc)} skipped {dict(skipped)}")
+    ctx.log(f"{what} model tie ({fid}): {dict(cc)} skipped {dict(skipped)}")
 
 
 def run(ctx):
@@ -201,7 +201,7 @@ def run(ctx):
     proved = ctx.prove("C01", extracted=["OptConsts", "ValueConsts", "Opcodes"])
     if ctx.tier == "thorough" and proved:
         ctx.coqchk("C01")
-    ok, out = vlib.coq_make(["Model/EvalObs.vo", "Model/Opt/FoldObs.vo", "Model/Opt/DceObs.vo", "Model/Opt/UnusedObs.vo"])
+    ok, out = vlib.coq_make(["Model/EvalObs.vo", "Model/Opt/FoldObs.vo", "Model/Opt/DceObs.vo", "Model/Opt/UnusedObs.vo", "Model/Opt/GlobalPropObs.vo"])
     if not ok:
         ctx.broken.append("coq: model files for the C01 ties do not build")
         ctx.log(out[-2000:])
@@ -217,12 +217,16 @@ def run(ctx):
     rp = c02.replay_program(ctx)
     if rp is not None:
         progs, feats = [rp], [["replay"]]
-    res = c02.run_stream(ctx, progs, passes="dce,unused,unused-open")
+    res = c02.run_stream(ctx, progs, passes="dce,unused,unused-open,globalprop,globalprop-open")
     if res is None:
         return
     dce_tie(ctx, progs, res)
     unused_tie(ctx, progs, res)
     unused_tie(ctx, progs, res, key="pass:unused-open", fid="unused_open_fid", label="unused_session_unit_model_tie")
+    unused_tie(ctx, progs, res, key="pass:globalprop", fid="gprop_fid", label="globalprop_model_tie", mod="GlobalPropObs",
+               what="global-constant-propagation", skip_other=True)
+    unused_tie(ctx, progs, res, key="pass:globalprop-open", fid="gprop_open_fid", label="globalprop_session_unit_model_tie", mod="GlobalPropObs",
+               what="global-constant-propagation", skip_other=True)
     cases, idx = [], []
     dist, featc = collections.Counter(), collections.Counter()
     impl_bad = 0
